@@ -1155,3 +1155,68 @@ Theorem C02_tr_quit_all_exit_sound : forall ext cb cmd d fuel (bad : val -> Prop
 Proof. exact tr_quit_all_exit_sound. Qed.
 Print Assumptions C02_tr_quit_all_exit_sound.
 End C02_translated_quit_all_model.
+
+(* ------------------------------------------------------------------------------------------ *)
+(* ec_write ON THE C TEXT: the saved mark and the buffer's name (coq/TrEcWrite.v, TrEcWriteCmd.v, TrEcWriteThm.v, TrEcWriteQuit.v; the
+   whole function is C03_tr_ec_write in Properties_C03.v).  `adopts p path` is the condition of the translated
+   `if (!ex_path()[0] && path[0] != '!')`, `same_str p path` that of `!strcmp(ex_path(), path)`, `saved_lb` what the translated
+   lbuf_saved / lbuf_unsaved calls leave (proved on the C text in TrEcWrite.saved_ok through TrLbuf.tr_lbuf_saved_keep / tr_lbuf_unsaved). *)
+From NV Require TrEcWrite TrEcWriteCmd TrEcWriteThm TrEcWriteQuit.
+Section C02_translated_ec_write.
+Import CLite CLiteProps GenCFuncs CLiteTac CLiteExt TrLbufBase TrLbuf TrEcWrite TrEcWriteCmd TrEcWriteThm.
+Local Open Scope Z_scope.
+
+(* fix 268c549 on the C text: the name is adopted exactly by a buffer without a name for a target that is not a pipe *)
+Theorem C02_tr_adopts_iff : forall p path, adopts p path = true <-> p = [] /\ Bytes.nthb path 0 <> 33%N.
+Proof. exact adopts_iff. Qed.
+Print Assumptions C02_tr_adopts_iff.
+Theorem C02_tr_adopts_pipe : forall p s, adopts p (33%N :: s) = false.
+Proof. exact adopts_pipe. Qed.
+Print Assumptions C02_tr_adopts_pipe.
+
+(* a write to a pipe or to another path: behind snprintf / ex_show nothing is stored -- no lbuf_saved, no lbuf_unsaved, no mtime, no name:
+   the buffer is exactly as modified as before *)
+Theorem C02_tr_write_elsewhere_neutral : forall ext bl n bm qb path b e K (Q : Z -> mem -> Prop) m gb pb p blk lb,
+  adopts p path = false -> same_str p path = false ->
+  (tail_run ext bl n bm qb path b e K Q m gb pb p blk lb <->
+   forall u1 m1 u2 m2, ext X_snprintf [VPtr bm 0; VInt 128; VPtr G_wmsg 0; VPtr qb 0; VInt (e - b)] m = Ok (u1, m1) -> same_on K m m1 ->
+     ext X_ex_show [VPtr bm 0] m1 = Ok (u2, m2) -> same_on K m1 m2 -> Q 0 m2).
+Proof. exact tail_run_elsewhere. Qed.
+Print Assumptions C02_tr_write_elsewhere_neutral.
+
+(* the saved mark the C text leaves IS DirtyDefs.write_own: lbuf_saved for the whole buffer, lbuf_unsaved for a part *)
+Theorem C02_tr_saved_mark_model : forall (lb : lbuf) (dk : text) (b en : nat),
+  saved_lb lb true (whole (Z.of_nat b) (Z.of_nat en) (Z.of_nat (length (ln lb)))) = DirtyDefs.lb (write_own {| DirtyDefs.lb := lb; disk := dk |} b en).
+Proof. exact saved_lb_model. Qed.
+Print Assumptions C02_tr_saved_mark_model.
+
+(* the decisions of the C text against DirtyDefs.ec_write_named, for every injective numbering of the names: the name afterwards and the
+   lbuf state are the model's (the model's failing case -- no argument on the buffer without a name -- is lbuf_save("") in the C text) *)
+Theorem C02_tr_ec_write_model : forall (code : Bytes.bytes -> nat) (lb : lbuf) (dk : text) (p arg path : Bytes.bytes) (b en : nat),
+  (forall x y, code x = code y -> x = y) -> (arg = [] -> path = p) -> path <> [] -> (Bytes.nthb p 0 <> 33%N) ->
+  let f := {| nb := {| DirtyDefs.lb := lb; disk := dk |}; nname := name_of code p |} in
+  let r := ec_write_named (target_of code arg path) b en f in
+  snd r = false /\
+  nname (fst r) = name_of code (name_after p path) /\
+  DirtyDefs.lb (nb (fst r)) = saved_lb lb (same_str (name_after p path) path) (whole (Z.of_nat b) (Z.of_nat en) (Z.of_nat (length (ln lb)))).
+Proof. exact tr_ec_write_model. Qed.
+Print Assumptions C02_tr_ec_write_model.
+
+(* wq / x: when the oracle of ec_quit for ec_write IS the run of the translated ec_write and that run reports failure, ec_quit returns 1
+   with the memory ec_write left: xquit is not stored *)
+Theorem C02_tr_ec_quit_write_linked : forall ext m cb cmd loc arg txt r mw d fuel D,
+  str_at m cb cmd -> Bytes.nonul cmd -> TrBufs.ptr_val arg -> TrQuit.is_wx cmd = true ->
+  ext X_ec_write [VPtr G_lit__0 0; VPtr cb 0; arg; VInt 0] m = callx ext cprog fuel D F_ec_write [VPtr G_lit__0 0; VPtr cb 0; arg; VInt 0] m ->
+  callx ext cprog fuel D F_ec_write [VPtr G_lit__0 0; VPtr cb 0; arg; VInt 0] m = Ok (VInt r, mw) -> r <> 0 ->
+  callx ext cprog fuel (S (S (S (S d)))) F_ec_quit [loc; VPtr cb 0; arg; txt] m = Ok (VInt 1, mw).
+Proof. exact TrEcWriteQuit.tr_ec_quit_write_linked. Qed.
+Print Assumptions C02_tr_ec_quit_write_linked.
+
+(* the translated ec_write RUNS (vm_compute): `w !c` on the buffer without a name returns 0 and leaves the path cell, the mtime, the
+   command counter and useq_zero as they were (the buffer stays modified); `w g` on it adopts the name and marks it saved *)
+Example C02_tr_ec_write_runs :
+  run_w (VInt 0) [] [119%N] [33%N; 99%N] [33%N; 99%N] = Some (0, Some (VPtr PB 0), Some (VInt 100), Some (VInt 5), Some (VInt 3)) /\
+  run_w (VInt 0) [] [119%N] [103%N] [103%N] = Some (0, Some (VPtr (QX + 5) 0), Some (VInt 777), Some (VInt 6), Some (VInt 4)) /\
+  run_w (VInt 0) [102%N] [120%N] [] [] = Some (0, Some (VPtr PB 0), Some (VInt 777), Some (VInt 7), Some (VInt 4)).
+Proof. split; [exact run_w_pipe_unnamed|]. split; [exact run_w_adopt|exact run_x_modified]. Qed.
+End C02_translated_ec_write.
